@@ -22,13 +22,13 @@ CHECKS = {
          'All byte strings of length <=5 (thorough 6) over a 14-byte alphabet as .json and .toml files; every single (thorough: double) directive injection into every base tree in 5 layerings and 3 file formats; all 125k three-key reference graphs; all 512x3 $parent digraphs; 39 hand-written YAML texts; CLI exit contract for all four tools on a subset. Oracle: returns output xor error, no panic, step budget not exceeded, worker survives, definite cycles are errors.',
          'Step budget counts instrumented function/loop entries of package bkl only; dependencies are covered by the worker watchdog. Cycle => error is asserted only for pure whole-value reference cycles and $parent cycles.', '4/C08'),
  'C09': ('E4', 'stateless choice-point DFS over all map-iteration orders within a deviation bound and over all interleavings of shared-variable accesses within a pre-emption bound, on an overlay-instrumented build; separate free-running -race pass',
-         'For every input (hand-picked order-sensitive documents plus generated trees and merge pairs) all executions with <=2 (thorough 3) non-default picks at every map range site vinstr finds in the working tree; all 2-thread (<=2 pre-emptions) and 3-thread (<=1) interleavings at accesses to mutable package-level variables; 16-goroutine free-running pass under the race detector; two fresh CLI processes per input. Every execution must produce the observation of the default execution.',
+         'For every input (hand-picked order-sensitive documents plus generated trees and merge pairs) all executions with <=2 (thorough 3) non-default picks at every map range site vinstr finds in the working tree, and a second pass that also controls every maps.Keys/Values/All call site (so a comparator that is not a total order shows); all 2-thread (<=2 pre-emptions) and 3-thread (<=1) interleavings at accesses to mutable package-level variables; 16-goroutine free-running pass under the race detector; two fresh CLI processes per input. Every execution must produce the observation of the default execution.',
          'Map iteration inside dependencies is not controlled. The scheduler is sequentially consistent and only interleaves at package-level variable accesses (none mutable on the current tree); the -race pass guards that assumption.', '4/C09'),
  'C11': ('E1+E2', 'bounded-exhaustive enumeration of all marker placements on all small trees, compared with an independent selection/hiding model',
          'Every tree with <=6 (thorough 7) nodes over keys {a,b,$output} and scalars {1,true,false} and every 2-document stream of trees <=3 nodes; outputs must equal ref.Outputs (multiset where a selection contains another selection), and no $output marker may survive.',
          'Trusted: ref.Outputs (select/hide/final), 150 lines.', '4/C11'),
  'C03': ('E5+E2', 'bounded-exhaustive enumeration of directory layouts within k deviations of baseline chains, each run through the real bkl CLI and compared with a model of layer resolution plus the stream/merge model',
-         'Five baseline layouts (filename chains of depth 1-4 with sibling layers) and every layout within 1 (quick; 2 on the two smallest baselines) or 2 (thorough, 155k layouts) deviations: extension changes over 6 formats, removed layers, 13 $parent values in document 0 or 1, false+string, filename links re-expressed by $parent, relative/chained/dotted symlinks, -P, virtual/unsupported extensions, extra inputs. Each layer appends its name to an order list, so the applied order is visible in the output.',
+         'Five baseline layouts (filename chains of depth 1-4 with sibling layers) and every layout within 1 (quick; 2 on the two smallest baselines) or 2 (thorough, 155k layouts) deviations: extension changes over 6 formats, removed layers, 16 $parent values in document 0 or 1, false+string, filename links re-expressed by $parent, relative/chained/dotted symlinks, -P, virtual/unsupported extensions, extra inputs. Each layer appends its name to an order list, so the applied order is visible in the output.',
          'Trusted: refResolve (150 lines) + ref.Stream/ref.Merge. Not judged: $parent values of other types, absolute symlinks (os.Root refuses them), the same file loaded twice under one child (identical document ids).', '4/C03'),
  'C04': ('E1', 'exhaustive enumeration of all format assignments for every logical layer set, differential against the all-JSON assignment',
          'About 400 (thorough 900) logical layer sets built around every comparison bkl makes (useless override, list $match/$delete/$value, document $match, $repeat counts, $encode of numbers) over 14 boundary numbers and 8 look-alike strings, each written under all 6^n assignments of six (format, style) spellings; status, type-exact Documents() and output bytes in three formats must equal the all-JSON run. YAML anchor/merge-key and TOML dotted-key/table templates are compared with their expanded JSON.',
@@ -43,10 +43,10 @@ CHECKS = {
          'Every body tree up to 4 (thorough 5) nodes using $repeat / {$repeat} in values, interpolations and keys x counts 0..5 and 9 non-integer counts at document level (map and list roots), nested in lists and maps under and without an outer repeat, 1-3 named counts with every assignment 0..3, counts overridden by an upper layer. eval(D) must equal eval(hand expansion); a non-integer count must be an error.',
          'Trusted: the 150-line textual expander. Not judged: negative counts, $repeat: null, colliding map-level repeat keys.', '4/C12'),
  'C13': ('E1+E2', 'bounded-exhaustive enumeration of interpolation templates and environment values against a string-concatenation model',
-         'Every template of k+1 literal segments (7 forms) and k references (10 forms incl. $env, unset, missing, $repeat) for k<=3 (thorough 4), as value and as key, under 12 environment values; whole-string $env in values, keys and list entries. Result must be the concatenation; missing references must fail.',
+         'Every template of k+1 literal segments (7 forms) and k references (10 forms incl. $env, unset, missing, $repeat) for k<=3 (thorough 4), as value and as key, under 18 environment values; whole-string $env in values, keys and list entries. Result must be the concatenation; missing references must fail.',
          'The worker owns its environment. Known finding: an environment value containing $$ is unescaped once more (listed in known_findings.json).', '4/C13'),
  'C14': ('E1+E2', 'bounded-exhaustive enumeration of values x transform stacks in three syntactic forms against independently computed encodings',
-         '34 values x every stack of up to 3 of 29 transform spellings (valid, malformed arguments, unknown, non-string) in map form, list-marker form and $value form; decode(encode(v)) for 6 formats rendered through JSON and YAML. Reference built on crypto/sha256, encoding/base64, encoding/json, strings; yaml/toml text is judged by parsing it with yaml.v3 / go-toml called directly.',
+         '46 values (incl. integers at the 32/53/64-bit boundaries) x every stack of up to 3 of 29 transform spellings (valid, malformed arguments, unknown, non-string) in map form, list-marker form and $value form; decode(encode(v)) for 6 formats rendered through JSON and YAML. Reference built on crypto/sha256, encoding/base64, encoding/json, strings; yaml/toml text is judged by parsing it with yaml.v3 / go-toml called directly.',
          'Not judged: base64/sha256 of containers, join/prefix/tolist over nested containers, toml of non-maps, transforms applied to yaml/toml text.', '4/C14'),
  'C15': ('E1+E5', 'exhaustive enumeration of all ordered (base, target) pairs up to a node bound, round-tripped through the copied diff code in-process and through the real CLIs',
          'All 2M (thorough 130M: 11k^2) ordered pairs of map-rooted, null-free, $-free trees up to 4 (5) nodes over keys {a,b,l}, all pairs of lists of <=2 (3) entries with subset maps, duplicates and reorders; CLI bkld then bkl in format mixes. bkl(base + bkld(base,target)) must equal target; equal inputs must give an empty layer.',
@@ -58,10 +58,10 @@ CHECKS = {
          'Every chain of 1-3 map-rooted layers over keys {a,b}, scalars {1,x,$required} up to 4 (thorough 5) nodes: marker paths of bklr output equal those of the merged document, nothing else is present, empty iff none, idempotent, and bkl refuses with a required-field error exactly when the output is non-empty; CLI with filename inheritance in format mixes.',
          'In-process runs use cmd/bklr/required.go copied from the working tree at build time.', '4/C17'),
  'C18': ('E5', 'exhaustive product of root spellings x entry spellings x escape vectors x decoy states through the real CLI, with an inotify monitor on the files that must never be read',
-         '5 root spellings x 4 entry spellings x 12 escape vectors x {escaping, in-root twin} x 4 decoy states, plus nested library SetRoot calls: no IN_OPEN/IN_ACCESS on any file outside the root, status and stdout independent of the decoy, escapes fail, twins succeed with the expected output; -r / runs are the control proving each vector reaches the decoy when unconfined (and that the monitor sees it).',
+         '5 root spellings x 4 entry spellings x 12 escape vectors x {escape to an unrelated directory, escape to a sibling whose name extends the root name, in-root twin} x 4 decoy states, plus nested library SetRoot calls: no IN_OPEN/IN_ACCESS on any file outside the root, status and stdout independent of the decoy, escapes fail, twins succeed with the expected output; -r / runs are the control proving each vector reaches the decoy when unconfined (and that the monitor sees it).',
          'stat/readlink/directory listing do not count as reading contents.', '4/C18'),
  'C20': ('E5', 'exhaustive enumeration of argument vectors over an alphabet of argument kinds, observed by a recording stand-in program',
-         'Every argument vector of length 0-3 (thorough 4) over 12 argument kinds and flag vectors of length 5-8 with one (two) non-flag arguments at every position, invoked as recb (symlink to bklb) and kubectl-bkl: same argument count, non-file arguments byte-identical in place, file arguments replaced by a file of the named format holding the evaluated layers, wrapped program not run when evaluation fails.',
+         'Every argument vector of length 0-3 (thorough 4) over 15 argument kinds (incl. .yml-backed and .json-backed layers) and flag vectors of length 5-8 with one (two) non-flag arguments at every position, invoked as recb (symlink to bklb) and kubectl-bkl: same argument count, non-file arguments byte-identical in place, file arguments replaced by a file of the named format holding the evaluated layers, wrapped program not run when evaluation fails.',
          'File content is parsed with encoding/json, yaml.v3, go-toml called directly and compared with the known evaluated layers.', '4/C20'),
  'C19': ('E3', 'explicit-state breadth-first search over API histories with a reflective whole-Parser state key, plus stateless enumeration of all histories without de-duplication against a never-observed reference parser',
          'Operation alphabet {4 template merges, MergeFileLayers, Documents, Output(json), Output(yaml), OutputDocuments, OutputToWriter}; all histories of length <=5 (thorough 6) without de-duplication; BFS to length 8 / 3 merges de-duplicated on a reflective dump of the Parser (unexported fields, pointer sharing) for 4 (thorough all 495) template sets. Invariants: observations are self-loops, observations are a function of state, merges after observations behave as if never observed, returned bytes are stable, Documents() equals the merged unevaluated model tree.',
